@@ -367,6 +367,8 @@ def run(chk: Check, eng: Engine) -> None:
     from .c11 import gethash_rule
 
     gethash_rule(chk, eng, "R07-g")
+    chk.rule("R07-k", "scope and local variables received by a constraint / search method are passed on to every family method that takes them", floor=20)
+    cf.context_forwarding_rule(chk, eng, "R07-k")
     chk.rule("R07-j", "a comparison that does not hold is never scored as satisfied (its score excludes 1.0 in float arithmetic; the verdict is `all(score == 1.0)`)", floor=3)
     from .c02 import failing_score_rule
 
@@ -396,6 +398,9 @@ _EX = "src/fandango/constraints/exists.py"
 _IMP = "src/fandango/constraints/implication.py"
 _S = "src/fandango/language/search.py"
 MUTANTS = [
+    M("forall-domain-without-scope", "src/fandango/constraints/forall.py", "        for container in self.search.quantify(tree, scope=scope):\n", "        for container in self.search.quantify(tree):\n", "R07-k"),
+    M("implication-consequent-without-locals", "src/fandango/constraints/implication.py", "            fitness = copy(self.consequent.fitness(tree, scope, local_variables))", "            fitness = copy(self.consequent.fitness(tree, scope))", "R07-k"),
+    M("base-quantify-drops-scope", "src/fandango/language/search.py", "        return self.find(tree, scope, population)\n", "        return self.find(tree)\n", "R07-k"),
     M("distance-made-live", "src/fandango/constraints/comparison.py", "    if dist is float | int:\n", "    if isinstance(dist, (int, float)):\n", "R07-j"),
     M("rs-slice-ordinal-accessors", "src/fandango/language/parse/convert.py", "            bounds: list[Optional[int]] = [None, None, None]\n            slot = 0\n            for child in ctx.getChildren():\n                if child.getText() == \":\":\n                    slot += 1\n                else:\n                    bounds[slot] = int(child.getText())\n            return slice(*bounds)",
       "            return slice(\n                int(ctx.NUMBER(0).getText()) if ctx.NUMBER(0) else None,\n                int(ctx.NUMBER(1).getText()) if ctx.NUMBER(1) else None,\n                int(ctx.NUMBER(2).getText()) if ctx.NUMBER(2) else None,\n            )", "R07-h"),
